@@ -56,6 +56,8 @@ pub enum Op {
     LazyExecObserve(u8),
     /// closure: calls `world.maintain()` itself
     LazyExecMaintain,
+    /// closure: `lazy.create_entity(&entities).with(component k).build()` from inside a running action
+    LazyExecLazyBuild(u8),
 }
 
 pub fn show_ops(ops: &[Op]) -> String {
@@ -118,6 +120,7 @@ enum LazyAct {
     CreateWith(u32, u8, u32),
     Observe(u32, u8),
     Maintain(u32),
+    LazyBuild(u32, u8, u32),
 }
 
 pub struct Hist<A, B, C> {
@@ -688,6 +691,32 @@ impl<'h, A: Kind, B: Kind, C: Kind> Run<'h, A, B, C> {
                 });
                 self.m.queue.push_back(LazyAct::Observe(n, *k));
             }
+            Op::LazyExecLazyBuild(k) => {
+                if budget < 1 || *k > 2 {
+                    return false;
+                }
+                self.m.created += 1;
+                let n = self.next_seq();
+                let v = 500 + *k as u32;
+                let sh = self.shared.clone();
+                let k2 = *k;
+                self.w.read_resource::<LazyUpdate>().exec(move |w| {
+                    let e = {
+                        let ents = w.entities();
+                        let lazy = w.read_resource::<LazyUpdate>();
+                        let b = lazy.create_entity(&ents);
+                        match k2 {
+                            0 => b.with(A::make(v)).build(),
+                            1 => b.with(B::make(v)).build(),
+                            _ => b.with(C::make(v)).build(),
+                        }
+                    };
+                    let mut g = sh.lock().unwrap();
+                    g.log.push(n);
+                    g.created.push((n, e));
+                });
+                self.m.queue.push_back(LazyAct::LazyBuild(n, *k, v));
+            }
             Op::LazyExecMaintain => {
                 let n = self.next_seq();
                 let sh = self.shared.clone();
@@ -787,6 +816,23 @@ impl<'h, A: Kind, B: Kind, C: Kind> Run<'h, A, B, C> {
                 LazyAct::QueuesInsert(n, s, k) => {
                     exp_log.push(n);
                     self.m.queue.push_back(LazyAct::Insert(s, k, tok_val(s, k) + 300));
+                }
+                LazyAct::LazyBuild(n, k, v) => {
+                    exp_log.push(n);
+                    match created.get(ci) {
+                        Some((m, e)) if *m == n => {
+                            ci += 1;
+                            let slot = self.m.handles.len() as u8;
+                            self.m.created -= 1;
+                            self.new_slot(*e, St::Unmerged, false);
+                            // the builder's insertion is queued behind whatever is already queued
+                            self.m.queue.push_back(LazyAct::Insert(slot, k, v));
+                        }
+                        other => {
+                            fail!(self, Prop::C09, "lazy-create: closure {} did not create its entity in order (got {:?})", n, other);
+                            self.m.queue.clear();
+                        }
+                    }
                 }
                 LazyAct::CreateNow(n) | LazyAct::EntCreate(n) | LazyAct::CreateWith(n, _, _) => {
                     exp_log.push(n);
@@ -1261,6 +1307,7 @@ impl<'h, A: Kind, B: Kind, C: Kind> Run<'h, A, B, C> {
                     LazyAct::CreateWith(_, k, _) => (10u8, *k).hash(&mut hsh),
                     LazyAct::Observe(_, k) => (11u8, *k).hash(&mut hsh),
                     LazyAct::Maintain(_) => 12u8.hash(&mut hsh),
+                    LazyAct::LazyBuild(_, k, _) => (13u8, *k).hash(&mut hsh),
                 }
             }
         }
@@ -1357,6 +1404,7 @@ impl<'h, A: Kind, B: Kind, C: Kind> Run<'h, A, B, C> {
                 v.push(Op::LazyExecEntCreate);
                 v.push(Op::LazyBuild(0));
                 v.push(Op::LazyExecCreateWith(0));
+                v.push(Op::LazyExecLazyBuild(1));
             }
         }
         v.sort();
